@@ -1,7 +1,532 @@
-//! C18 — not built yet.
+//! C18 — all front-ends report the same thing and the exit code follows it.
+//!
+//! For generated contents x rule selections x `--parsing-errors`, the library's `LintedFile`s
+//! (`Linter::lint_string`, lint and fix mode) feed the Gallina model of the CLI decision logic
+//! (Cli/Model.v: run_lint, run_lint_stdin, run_fix, run_fix_stdin, the three formatters), whose
+//! predicted exit codes / report multisets / writes are compared with the real `sqruff` binary
+//! built from the tree, run in formats {human, github-annotation-native, json} x modes
+//! {directory, path, stdin}. Independently of the model every run is judged against the property text.
+use std::collections::BTreeSet;
+use std::io::Write as _;
+use std::path::{Path, PathBuf};
+use std::process::{Command, Stdio};
+
+use serde_json::{Value, json};
+use sqruff_lib::core::config::FluffConfig;
+use sqruff_lib::core::linter::core::Linter;
+
 use crate::common::*;
 
-pub fn main(_args: &Args) {
-    eprintln!("c18: not built yet");
-    std::process::exit(2);
+const FIXABLE: &[&str] = &[
+    "SeLeCt  1 from tBl ;\n",
+    "SELECT col_a a FROM foo\n",
+    "select a,b from t\n",
+    "SELECT  a  AS x,  b y FROM  t  WHERE a=1\n",
+    "select A from T where B  in (1,2)\n",
+    "SELECT a from t\n",
+    "SELECT\n    a,\n  b\nFROM t\n",
+];
+const UNFIXABLE: &[&str] = &[
+    "SELECT a FROM t1 AS x, t2 AS x\n",
+    "SELECT * FROM t UNION SELECT a FROM t\n",
+    "SELECT aaaaaaaaaaaaaaaaaaaaaaaaaaaaaaaaaaaaaaaaaaaaaaaaaaaaaaaaaaaaaaaaaaaaaaaaaaaaaaaaaaaaaaaaaaaaaaaaaaaaaaaaaaaaaaaaaaaaaaaaaaaaaa FROM t\n",
+    "SELECT a, a FROM t\n",
+    "SELECT t.a FROM t, u\n",
+    "SELECT a FROM t GROUP BY 1, b\n",
+];
+const CLEAN: &[&str] = &["SELECT a FROM t\n", "SELECT 1\n", "SELECT\n    a,\n    b\nFROM t\n", ""];
+const JUNK: &[&str] = &[
+    "SELECT FROM WHERE\n",
+    "SELECT 1 +\n",
+    "FOO BAR BAZ;\n",
+    "SELECT (1;\n",
+    "SELECT a FROM t WHERE ;\n",
+    "SELECT 1; )))\n",
+    "SELECT a FROM t -- noqa:\n",
+    "SELECT a from t -- noqa: disable=\n",
+    "SELECT 'abc\n",
+];
+const RULESETS: &[&str] = &["core", "all", "CP01,LT01", "AL04,AM04,LT05,RF01", "CP01", "LT01,LT02,AL01,AL02", "AL04", "LT05,LT12"];
+const FORMATS: [&str; 3] = ["human", "github-annotation-native", "json"];
+const MODES: [&str; 3] = ["directory", "path", "stdin"];
+
+#[derive(Clone, Debug, PartialEq, Eq, PartialOrd, Ord)]
+struct RLine(usize, usize, Option<String>);
+
+#[derive(Clone)]
+struct V {
+    line: usize,
+    col: usize,
+    rule: Option<String>,
+    warning: bool,
+    ignore: bool,
+    fixable: bool,
+}
+impl V {
+    fn rl(&self) -> RLine {
+        RLine(self.line, self.col, self.rule.clone())
+    }
+    fn g(&self) -> String {
+        format!(
+            "{{| v_line := {}; v_col := {}; v_rule := {}; v_warning := {}; v_ignore := {}; v_fixable := {} |}}",
+            self.line,
+            self.col,
+            g_opt(self.rule.as_ref().map(|r| g_str(r))),
+            g_bool(self.warning),
+            g_bool(self.ignore),
+            g_bool(self.fixable)
+        )
+    }
+}
+fn g_rl(r: &RLine) -> String {
+    format!("({},{},{})", r.0, r.1, g_opt(r.2.as_ref().map(|c| g_str(c))))
+}
+fn j_rl(r: &RLine) -> Value {
+    json!([r.0, r.1, r.2])
+}
+
+struct Case {
+    dialect: &'static str,
+    files: Vec<String>,
+    rules: String,
+    parsing_errors: bool,
+    cls: &'static str,
+}
+
+struct Env {
+    sqruff: PathBuf,
+    scratch: PathBuf,
+}
+
+struct Run {
+    status: Option<i32>,
+    stdout: String,
+    stderr: String,
+}
+
+fn run(env: &Env, cwd: &Path, args: &[&str], stdin: Option<&str>) -> Run {
+    let mut cmd = Command::new(&env.sqruff);
+    cmd.current_dir(cwd).env("RUST_BACKTRACE", "0").env("NO_COLOR", "1").args(args).stdout(Stdio::piped()).stderr(Stdio::piped());
+    cmd.stdin(if stdin.is_some() { Stdio::piped() } else { Stdio::null() });
+    let Ok(mut child) = cmd.spawn() else {
+        return Run { status: None, stdout: String::new(), stderr: "spawn failed".into() };
+    };
+    if let Some(s) = stdin {
+        if let Some(mut si) = child.stdin.take() {
+            let _ = si.write_all(s.as_bytes());
+        }
+    }
+    match child.wait_with_output() {
+        Ok(o) => Run { status: o.status.code(), stdout: String::from_utf8_lossy(&o.stdout).to_string(), stderr: String::from_utf8_lossy(&o.stderr).to_string() },
+        Err(_) => Run { status: None, stdout: String::new(), stderr: "wait failed".into() },
+    }
+}
+
+fn strip_ansi(s: &str) -> String {
+    let mut out = String::new();
+    let mut it = s.chars().peekable();
+    while let Some(c) = it.next() {
+        if c == '\u{1b}' {
+            for d in it.by_ref() {
+                if d.is_ascii_alphabetic() {
+                    break;
+                }
+            }
+        } else {
+            out.push(c);
+        }
+    }
+    out
+}
+
+/// Parse one run's output into per-file report multisets: Vec<(file name, sorted lines)>.
+fn parse_reports(fmt: &str, r: &Run) -> Option<Vec<(String, Vec<RLine>)>> {
+    let mut files: Vec<(String, Vec<RLine>)> = vec![];
+    let code = |c: &str| if c == "????" { None } else { Some(c.to_string()) };
+    match fmt {
+        "human" => {
+            for line in strip_ansi(&r.stderr).lines() {
+                if let Some(rest) = line.strip_prefix("== [") {
+                    let name = rest.rsplit_once("] ").map(|x| x.0).unwrap_or(rest);
+                    files.push((name.to_string(), vec![]));
+                } else if let Some(rest) = line.strip_prefix("L:") {
+                    let parts: Vec<&str> = rest.splitn(4, " | ").collect();
+                    if parts.len() < 3 || !parts[1].starts_with("P:") {
+                        return None;
+                    }
+                    let l: usize = parts[0].trim().parse().ok()?;
+                    let p: usize = parts[1][2..].trim().parse().ok()?;
+                    let c = parts[2].trim();
+                    files.last_mut()?.1.push(RLine(l, p, code(c)));
+                }
+            }
+        }
+        "github-annotation-native" => {
+            for line in r.stderr.lines() {
+                if let Some(rest) = line.strip_prefix("::error title=sqruff,file=") {
+                    let (head, msg) = rest.split_once("::")?;
+                    let (head, col) = head.rsplit_once(",col=")?;
+                    let (name, l) = head.rsplit_once(",line=")?;
+                    let c = msg.split_once(": ").map(|x| x.0).unwrap_or(msg);
+                    let rl = RLine(l.parse().ok()?, col.parse().ok()?, code(c));
+                    match files.iter_mut().find(|f| f.0 == name) {
+                        Some(f) => f.1.push(rl),
+                        None => files.push((name.to_string(), vec![rl])),
+                    }
+                }
+            }
+        }
+        _ => {
+            let v: Value = serde_json::from_str(r.stdout.trim()).ok()?;
+            for (k, ds) in v.as_object()? {
+                let mut ls = vec![];
+                for d in ds.as_array()? {
+                    let l = d["range"]["start"]["line"].as_u64()? as usize;
+                    let p = d["range"]["start"]["character"].as_u64()? as usize;
+                    ls.push(RLine(l, p, d["code"].as_str().map(|s| s.to_string())));
+                }
+                files.push((k.clone(), ls));
+            }
+        }
+    }
+    for f in files.iter_mut() {
+        f.1.sort();
+    }
+    Some(files)
+}
+
+fn lib_lint(cfg: &str, pe: bool, sql: &str, fix: bool) -> Result<(Vec<V>, String), String> {
+    catch(|| {
+        let linter = Linter::new(FluffConfig::from_source(cfg, None), None, None, pe);
+        let lf = linter.lint_string(sql, None, fix);
+        let vs = lf
+            .violations
+            .iter()
+            .map(|v| V { line: v.line_no, col: v.line_pos, rule: v.rule.as_ref().map(|r| r.code.to_string()), warning: v.warning, ignore: v.ignore, fixable: v.fixable })
+            .collect();
+        let fixed = if fix { lf.fix_string() } else { String::new() };
+        (vs, fixed)
+    })
+}
+
+/// the second file of a case lives in a sub-directory (directory mode walks into it)
+fn fname(i: usize) -> String {
+    if i == 1 { "sub/f1.sql".to_string() } else { format!("f{}.sql", i) }
+}
+
+fn old_time() -> std::time::SystemTime {
+    std::time::UNIX_EPOCH + std::time::Duration::from_secs(946_684_800)
+}
+fn write_files(dir: &Path, files: &[String]) -> std::io::Result<()> {
+    std::fs::create_dir_all(dir)?;
+    for (i, c) in files.iter().enumerate() {
+        let f = dir.join(fname(i));
+        if let Some(par) = f.parent() {
+            std::fs::create_dir_all(par)?;
+        }
+        std::fs::write(&f, c)?;
+        std::fs::File::options().write(true).open(&f)?.set_modified(old_time())?;
+    }
+    Ok(())
+}
+
+fn run_case(env: &Env, idx: usize, c: &Case, out: &mut Buf) {
+    let input = json!({"dialect":c.dialect,"files":c.files,"rules":c.rules,"parsing_errors":c.parsing_errors});
+    let cfg = format!("[sqruff]\ndialect = {}\nrules = {}\n", c.dialect, c.rules);
+    // ---- the library's answer for every file (lint mode and fix mode)
+    let mut lint_vs: Vec<Vec<V>> = vec![];
+    let mut fix_vs: Vec<Vec<V>> = vec![];
+    let mut fixed: Vec<String> = vec![];
+    for sql in &c.files {
+        let a = lib_lint(&cfg, c.parsing_errors, sql, false);
+        let b = lib_lint(&cfg, c.parsing_errors, sql, true);
+        match (a, b) {
+            (Ok((v, _)), Ok((w, f))) => {
+                lint_vs.push(v);
+                fix_vs.push(w);
+                fixed.push(f);
+            }
+            _ => {
+                out.count("library_panic_skipped(C03)", 1);
+                return;
+            }
+        }
+    }
+    out.count("contents", 1);
+    for vs in lint_vs.iter().chain(fix_vs.iter()) {
+        for v in vs {
+            out.hyp("H_flags: no violation carries ignore=true", "blocking", !v.ignore, json!({"input":input,"line":v.line,"rule":v.rule}));
+        }
+        out.count("library_violations", vs.len());
+        out.count("library_violations_without_rule", vs.iter().filter(|v| v.rule.is_none()).count());
+        out.count("library_violations_unfixable", vs.iter().filter(|v| !v.fixable).count());
+        out.count("library_violations_warning", vs.iter().filter(|v| v.warning).count());
+    }
+
+    let root = env.scratch.join(format!("c{}", idx));
+    let _ = std::fs::remove_dir_all(&root);
+    let w = root.join("w");
+    let w2 = root.join("w2");
+    if write_files(&w, &c.files).is_err() || write_files(&w2, &c.files).is_err() || std::fs::write(root.join("cfg"), &cfg).is_err() {
+        out.count("materialise_failed", 1);
+        let _ = std::fs::remove_dir_all(&root);
+        return;
+    }
+    let mut base: Vec<&str> = vec!["--config", "../cfg"];
+    if c.parsing_errors {
+        base.push("--parsing-errors");
+    }
+
+    // ---- lint: 3 formats x 3 modes
+    for (fi, fmt) in FORMATS.iter().enumerate() {
+        for mode in MODES {
+            let mut args = base.clone();
+            args.extend_from_slice(&["lint", "-f", fmt]);
+            let (r, expect_files): (Run, Vec<usize>) = match mode {
+                "directory" => {
+                    args.push(".");
+                    (run(env, &w, &args, None), (0..c.files.len()).collect())
+                }
+                "path" => {
+                    args.push("f0.sql");
+                    (run(env, &w, &args, None), vec![0])
+                }
+                _ => {
+                    args.push("-");
+                    (run(env, &w, &args, Some(&c.files[0])), vec![0])
+                }
+            };
+            let tag = format!("{}-{}", fmt, mode);
+            let lib_sets: Vec<BTreeSet<RLine>> = expect_files.iter().map(|i| lint_vs[*i].iter().map(|v| v.rl()).collect()).collect();
+            let lib_fail = expect_files.iter().any(|i| lint_vs[*i].iter().any(|v| !v.warning));
+            let ok_status = r.status == Some(0) || r.status == Some(1);
+            let reps = if ok_status { parse_reports(fmt, &r) } else { None };
+            // observed per expected file (a file without printed lines has an empty report)
+            let obs: Option<Vec<Vec<RLine>>> = reps.as_ref().map(|reps| {
+                expect_files
+                    .iter()
+                    .map(|i| {
+                        let name = if mode == "stdin" { "<string>".to_string() } else { fname(*i) };
+                        reps.iter().filter(|f| f.0 == name).flat_map(|f| f.1.clone()).collect::<Vec<_>>()
+                    })
+                    .map(|mut v: Vec<RLine>| {
+                        v.sort();
+                        v
+                    })
+                    .collect()
+            });
+            let stray = reps.as_ref().map(|reps| {
+                reps.iter().any(|f| {
+                    let known = if mode == "stdin" { f.0 == "<string>" } else { expect_files.iter().any(|i| f.0 == fname(*i)) };
+                    !known && !f.1.is_empty()
+                })
+            });
+            // ---------- direct judgement (property text)
+            let din = json!({"input":input,"format":fmt,"mode":mode});
+            match (&obs, stray) {
+                (None, _) => out.direct(&tag, false, &format!("c18-crash-{}", tag), &format!("no report: status {:?}, stderr: {}", r.status, trunc(&r.stderr, 300)), din),
+                (Some(_), Some(true)) => out.direct(&tag, false, &format!("c18-stray-report-{}", tag), "violations reported for a file that was not given", din),
+                (Some(o), _) => {
+                    let obs_sets: Vec<BTreeSet<RLine>> = o.iter().map(|v| v.iter().cloned().collect()).collect();
+                    if obs_sets != lib_sets {
+                        out.direct(&tag, false, &format!("c18-report-differs-{}", tag), &format!("reported (line, col, rule) set differs from the library's: cli {:?} vs lib {:?}", obs_sets, lib_sets), din);
+                    } else if r.status != Some(if lib_fail { 1 } else { 0 }) {
+                        out.direct(&tag, false, &format!("c18-lint-exit-{}", tag), &format!("exit {:?} but a non-warning violation is reported: {}", r.status, lib_fail), din);
+                    } else {
+                        out.direct(&tag, true, "", "", Value::Null);
+                    }
+                }
+            }
+            // ---------- correspondence case
+            let gargs = format!(
+                "({},{},{})",
+                ["Human", "Github", "Json"][fi],
+                g_bool(mode == "stdin"),
+                g_list(expect_files.iter().map(|i| g_list(lint_vs[*i].iter().map(|v| v.g()))))
+            );
+            let exp = match &obs {
+                Some(o) if stray == Some(false) => format!("(Some ({},{}))", r.status.unwrap_or(99), g_list(o.iter().map(|v| g_list(v.iter().map(g_rl))))),
+                _ => "None".to_string(),
+            };
+            let nontrivial = expect_files.iter().any(|i| !lint_vs[*i].is_empty());
+            let sample = json!({"input":{"dialect":c.dialect,"files":c.files,"rules":c.rules,"parsing_errors":c.parsing_errors,"only":tag},"status":r.status,
+                "reported":obs.as_ref().map(|o| o.iter().map(|v| v.iter().map(j_rl).collect::<Vec<_>>()).collect::<Vec<_>>()),
+                "library":expect_files.iter().map(|i| lint_vs[*i].iter().map(|v| j_rl(&v.rl())).collect::<Vec<_>>()).collect::<Vec<_>>()});
+            out.case("lint", &tag, nontrivial, gargs, exp, sample);
+        }
+    }
+
+    // ---- "-" mixed with other inputs is refused (is_std_in_flag_input)
+    if idx % 8 == 0 {
+        for shape in [vec!["f0.sql", "-"], vec!["-", "-"], vec!["-", "f0.sql"]] {
+            let mut args = base.clone();
+            args.extend_from_slice(&["lint", "-f", "json"]);
+            args.extend(shape.iter().copied());
+            let r = run(env, &w, &args, Some(&c.files[0]));
+            let refused = r.status == Some(1) && r.stderr.contains("Cannot mix stdin flag with other inputs") && r.stdout.trim().is_empty();
+            out.direct("stdin-flag", refused, "c18-stdin-flag-mix", &format!("'-' mixed with other inputs was not refused: status {:?}", r.status), json!({"input":input,"argv":shape}));
+            let gargs = g_list(shape.iter().map(|a| g_bool(*a == "-")));
+            let exp = if refused { "None" } else { "(Some false)" };
+            out.case("stdinflag", "stdin-flag", true, gargs, exp.to_string(), json!({"input":{"dialect":c.dialect,"files":c.files,"rules":c.rules,"parsing_errors":c.parsing_errors,"only":"stdin-flag"},"argv":shape,"status":r.status}));
+        }
+    }
+
+    // ---- fix: directory (w), path (w2), stdin
+    let fmt_i = idx % 3;
+    let fmt = FORMATS[fmt_i];
+    let gfmt = ["Human", "Github", "Json"][fmt_i];
+    for mode in MODES {
+        let mut args = base.clone();
+        let tag = format!("fix-{}-{}", fmt, mode);
+        let din = json!({"input":input,"format":fmt,"mode":format!("fix-{}", mode)});
+        if mode == "stdin" {
+            args.extend_from_slice(&["fix", "-f", fmt, "-"]);
+            let r = run(env, &w, &args, Some(&c.files[0]));
+            let unfix = fix_vs[0].iter().any(|v| !v.fixable);
+            let want = format!("{}\n", fixed[0]);
+            let ok_status = r.status == Some(0) || r.status == Some(1);
+            if !ok_status {
+                out.direct(&tag, false, &format!("c18-crash-{}", tag), &format!("status {:?}, stderr: {}", r.status, trunc(&r.stderr, 300)), din);
+            } else if r.stdout != want {
+                out.direct(&tag, false, "c18-fix-stdin-text", "stdout is not the library's fixed text", din);
+            } else if r.status != Some(if unfix { 1 } else { 0 }) {
+                out.direct(&tag, false, "c18-fix-stdin-exit", &format!("exit {:?}, unfixable violation found: {}", r.status, unfix), din);
+            } else {
+                out.direct(&tag, true, "", "", Value::Null);
+            }
+            let gargs = format!("({},{},1)", gfmt, g_list(fix_vs[0].iter().map(|v| v.g())));
+            let exp = if ok_status { format!("(Some ({},{}))", r.status.unwrap(), if r.stdout == want { 1 } else { 2 }) } else { "None".to_string() };
+            let sample = json!({"input":{"dialect":c.dialect,"files":c.files,"rules":c.rules,"parsing_errors":c.parsing_errors,"only":tag},"status":r.status});
+            out.case("fixstdin", &tag, !fix_vs[0].is_empty(), gargs, exp, sample);
+            continue;
+        }
+        let (dir, idxs): (&Path, Vec<usize>) = if mode == "directory" { (&w, (0..c.files.len()).collect()) } else { (&w2, vec![0]) };
+        args.extend_from_slice(&["fix", "--force", "-f", fmt]);
+        args.push(if mode == "directory" { "." } else { "f0.sql" });
+        let r = run(env, dir, &args, None);
+        let ok_status = r.status == Some(0) || r.status == Some(1);
+        let any_viol = idxs.iter().any(|i| !fix_vs[*i].is_empty());
+        let unfix = idxs.iter().any(|i| fix_vs[*i].iter().any(|v| !v.fixable));
+        let mut writes: Vec<(usize, bool, bool, bool)> = vec![];
+        let mut bad_content: Option<usize> = None;
+        let mut touched_unexpected: Option<usize> = None;
+        for i in 0..c.files.len() {
+            let f = dir.join(fname(i));
+            let content = std::fs::read_to_string(&f).unwrap_or_default();
+            let written = std::fs::metadata(&f).and_then(|m| m.modified()).ok() != Some(old_time());
+            let listed = idxs.contains(&i);
+            writes.push((i, content == fixed[i], content == c.files[i], written));
+            let want: &str = if listed && any_viol { &fixed[i] } else { &c.files[i] };
+            if content != want {
+                bad_content = Some(i);
+            }
+            if written && !(listed && any_viol) {
+                touched_unexpected = Some(i);
+            }
+        }
+        if !ok_status {
+            out.direct(&tag, false, &format!("c18-crash-{}", tag), &format!("status {:?}, stderr: {}", r.status, trunc(&r.stderr, 300)), din);
+        } else if let Some(i) = touched_unexpected {
+            out.direct(&tag, false, "c18-fix-touched", &format!("f{}.sql was written although nothing was reported / it was not given", i), din);
+        } else if let Some(i) = bad_content {
+            out.direct(&tag, false, "c18-fix-content", &format!("f{}.sql does not hold the library's fixed text", i), din);
+        } else if r.status != Some(if unfix { 1 } else { 0 }) {
+            out.direct(&tag, false, "c18-fix-exit", &format!("exit {:?}, unfixable violation found: {}", r.status, unfix), din);
+        } else {
+            out.direct(&tag, true, "", "", Value::Null);
+        }
+        let gargs = format!(
+            "({},{})",
+            gfmt,
+            g_list(idxs.iter().map(|i| format!("{{| f_id := {}; f_viols := {}; f_fixed := 1 |}}", i, g_list(fix_vs[*i].iter().map(|v| v.g())))))
+        );
+        let exp = if ok_status {
+            format!("(Some ({},{}))", r.status.unwrap(), g_list(writes.iter().map(|(i, a, b, t)| format!("({},{},{},{})", i, g_bool(*a), g_bool(*b), g_bool(*t)))))
+        } else {
+            "None".to_string()
+        };
+        let sample = json!({"input":{"dialect":c.dialect,"files":c.files,"rules":c.rules,"parsing_errors":c.parsing_errors,"only":tag},"status":r.status,"writes":writes});
+        out.case("fix", &tag, any_viol, gargs, exp, sample);
+    }
+    let _ = std::fs::remove_dir_all(&root);
+}
+
+fn usable(s: &str) -> bool {
+    s.is_ascii() && !s.contains("-- sqlfluff") && !s.contains("--sqlfluff") && !s.contains('\r') && s.len() < 1500 && !s.contains("{{") && !s.contains("{%")
+}
+
+pub fn main(args: &Args) {
+    silence_panics();
+    let mut out = Out::new(&args.out);
+    let mut rng = Rng::new(args.seed);
+    let sqruff = PathBuf::from(args.flag("--sqruff").expect("--sqruff <binary> required"));
+    let scratch = PathBuf::from(args.flag("--scratch").expect("--scratch <dir> required")).join(format!("c18-{}", std::process::id()));
+    std::fs::create_dir_all(&scratch).expect("scratch");
+    let env = Env { sqruff, scratch: scratch.clone() };
+    let mut cases: Vec<Case> = vec![];
+    let s = |x: &str| x.to_string();
+
+    if let Some(path) = args.flag("--replay-input") {
+        let v: Value = serde_json::from_str(&std::fs::read_to_string(path).unwrap()).unwrap();
+        let v = if v.get("input").is_some() && v["input"].get("files").is_some() { v["input"].clone() } else { v };
+        let d = v["dialect"].as_str().unwrap_or("ansi");
+        cases.push(Case {
+            dialect: DIALECTS.iter().copied().find(|x| *x == d).unwrap_or("ansi"),
+            files: v["files"].as_array().map(|a| a.iter().map(|x| x.as_str().unwrap_or("").to_string()).collect()).unwrap_or_default(),
+            rules: v["rules"].as_str().unwrap_or("core").to_string(),
+            parsing_errors: v["parsing_errors"].as_bool().unwrap_or(false),
+            cls: "replay",
+        });
+    } else {
+        // regression corpus: the repaired GitHub-format abort, an unfixable-only file, a clean directory
+        cases.push(Case { dialect: "ansi", files: vec![s("SELECT FROM WHERE\n")], rules: s("core"), parsing_errors: true, cls: "regression" });
+        cases.push(Case { dialect: "ansi", files: vec![s("SELECT a FROM t -- noqa:\n"), s("SELECT 1\n")], rules: s("core"), parsing_errors: false, cls: "regression" });
+        cases.push(Case { dialect: "ansi", files: vec![s("SELECT a FROM t1 AS x, t2 AS x\n"), s("SELECT a FROM t\n")], rules: s("AL04"), parsing_errors: false, cls: "regression" });
+        cases.push(Case { dialect: "ansi", files: vec![s("SELECT a FROM t\n"), s("SELECT 1\n")], rules: s("core"), parsing_errors: false, cls: "regression" });
+        cases.push(Case { dialect: "ansi", files: vec![s("SeLeCt  1 from tBl ;\n"), s("SELECT a FROM t\n")], rules: s("CP01,LT01"), parsing_errors: false, cls: "regression" });
+
+        let snippets: Vec<String> = rule_snippets().into_iter().map(|(_, t)| if t.ends_with('\n') { t } else { format!("{}\n", t) }).filter(|t| usable(t)).collect();
+        let n = if args.thorough() { 2500 } else { 260 };
+        for _ in 0..n {
+            let nfiles = rng.range(1, 3);
+            let mut files = vec![];
+            let mut cls = "generated";
+            for _ in 0..nfiles {
+                let mut t = String::new();
+                match rng.below(10) {
+                    0 | 1 if !snippets.is_empty() => {
+                        t = snippets[rng.below(snippets.len())].clone();
+                        cls = "rule-fixture-snippet";
+                    }
+                    2 => t.push_str(CLEAN[rng.below(CLEAN.len())]),
+                    _ => {
+                        for _ in 0..rng.range(1, 3) {
+                            let pool = match rng.below(10) {
+                                0..=3 => FIXABLE,
+                                4..=5 => UNFIXABLE,
+                                6..=7 => CLEAN,
+                                _ => JUNK,
+                            };
+                            let stmt = pool[rng.below(pool.len())];
+                            t.push_str(stmt.trim_end_matches('\n'));
+                            if !stmt.trim_end().ends_with(';') && !stmt.contains("--") && !stmt.is_empty() {
+                                t.push(';');
+                            }
+                            t.push('\n');
+                        }
+                    }
+                }
+                files.push(t);
+            }
+            let dialect = if rng.chance(2, 3) { "ansi" } else { ["postgres", "bigquery", "snowflake", "sparksql"][rng.below(4)] };
+            cases.push(Case { dialect, files, rules: RULESETS[rng.below(RULESETS.len())].to_string(), parsing_errors: rng.chance(1, 2), cls });
+        }
+    }
+    let items: Vec<(usize, Case)> = cases.into_iter().enumerate().collect();
+    par_run(&mut out, &items, || (), |_, (i, c), buf| {
+        let _ = c.cls;
+        run_case(&env, *i, c, buf)
+    });
+    let _ = std::fs::remove_dir_all(&scratch);
+    out.finish();
 }
